@@ -446,6 +446,32 @@ func checkRefsFor(p *Program, r *Report) {
 		}
 		if name == "(*Merged).RefsFor" {
 			r.floor("DOUBLE-CHECK", n, 1, "filter constructions in the merged RefsFor")
+			// every successful return hands out such a filter (no path returns the
+			// merged candidates unchecked)
+			nRet := 0
+			for _, s := range c.Samples {
+				if s.Kind != "ret" || s.Panic || s.St.truth(tEq(s.Vals[1], tNil)) == 0 || s.Vals[0].isNilConst() {
+					continue
+				}
+				nRet++
+				key := name + " / every iterator handed out re-checks"
+				good := false
+				for _, cl := range s.St.mem {
+					if cl.addr == nil || cl.addr.Op != "field" || cl.addr.Args[0] != s.Vals[0] {
+						continue
+					}
+					// the iterator's implementation field holds the filter
+					if dc, ok := s.St.mem[mk("field", "filteringRefIterator.doubleCheck", nil, cl.val).key]; ok && dc.val == tTrue {
+						good = true
+					}
+				}
+				if !good {
+					r.violate("DOUBLE-CHECK", key, p.pos(f.Pos()), "a path of the merged RefsFor returns an iterator that is not the re-checking filter: candidates that a newer table deleted or re-pointed (and that table does not mention the object any more) are returned with their old values", witnessOf(p, s.St.trace))
+				} else {
+					r.ok("DOUBLE-CHECK", key, "the returned iterator wraps a filter with doubleCheck set")
+				}
+			}
+			r.floor("DOUBLE-CHECK.returns", nRet, 1, "successful returns of the merged RefsFor")
 		}
 	}
 	// ---- ITER-POSITIONED: the indexed iterator handed out has its block iterator positioned
